@@ -119,6 +119,8 @@ package files
 //@   nopanic [C20]
 //@   let pat := path.entries[0].value
 //@   let nent := len(path.entries)
+// a directory segment also matches zero levels only when it consists of stars: what is trimmed is the star
+//@   atcall Trim staronly: arg0 == path.entries[0].value && arg1 == "*" [C20]
 //@   ensures leaf: nent == 1 && defined(E) ==> len(result) == select(N, len(E)) && select(N, 0) == 0 && (forall k :: { E[k] } 0 <= k && k < len(E) ==> (selected(E[k], pat) ? (select(N, k + 1) == select(N, k) + 1 && result[select(N, k)] == currentDirectory ++ "/" ++ deName(E[k])) : select(N, k + 1) == select(N, k))) [C20]
 //@   ensures unreadable: nent == 1 && !defined(E) ==> len(result) == 0 [C20]
 //@   loop 1 ghost E []os.DirEntry := entries ;; E
